@@ -202,6 +202,29 @@ struct Ctx<'a> {
     rep: &'a mut Report,
 }
 
+/// a cell is never equal to something that is not that cell - not to its content, not to another cell holding the same
+/// content or holding it - on either side of `==`, nested in containers, through `any` parameters and as a candidate
+fn cell_vs_content_cases() -> Vec<(String, bool)> {
+    let mut out = Vec::new();
+    for (ty, v, other) in [("int", "5", "6"), ("string", "\"ab\"", "\"\""), ("[int]", "[1]", "[]"), ("(int, int)", "(1, 2)", "(2, 1)"), ("float", "2.5", "0.0"), ("bool", "true", "false"), ("()", "()", "()"), ("struct{a: int}", "struct{a := 1}", "struct{a := 2}")] {
+        let pre = format!("m := mut {ty} {v}; eq := (x: any, y: any) -> bool {{ return x==y }}; ne := (x: any, y: any) -> bool {{ return x!=y }}; ");
+        for (e, want) in [
+            (format!("m == {v}"), false), (format!("{v} == m"), false), (format!("m != {v}"), true), (format!("{v} != m"), true),
+            (format!("m == {other}"), false), ("m == *m".to_string(), false), ("*m == m".to_string(), false), (format!("*m == {v}"), true), (format!("{v} == *m"), true),
+            (format!("[m] == [{v}]"), false), (format!("[{v}] == [m]"), false), (format!("(m, 1) == ({v}, 1)"), false), (format!("(1, {v}) == (1, m)"), false),
+            (format!("struct{{f := m}} == struct{{f := {v}}}"), false), (format!("struct{{f := {v}}} == struct{{f := m}}"), false), (format!("[[m]] == [[{v}]]"), false),
+            (format!("eq(m, {v})"), false), (format!("eq({v}, m)"), false), (format!("ne(m, {v})"), true), (format!("eq([m], [{v}])"), false), ("eq(m, m)".to_string(), true), ("eq([m], [m])".to_string(), true),
+            (format!("n := mut {ty} {v}; m == n"), false), (format!("n := mut {ty} {v}; eq(m, n) || eq([n], [m])"), false), ("n := mut m; n == m".to_string(), false), ("n := mut m; m == n".to_string(), false), ("n := mut m; *n == m".to_string(), true),
+            (format!("x := {v}; r := match x {{ m => true, => false, }}; r"), false), (format!("r := match m {{ {v} => true, => false, }}; r"), false), ("r := match m { m => true, => false, }; r".to_string(), true),
+            (format!("f := (x: any) -> bool {{ return match x {{ m => true, => false, }} }}; f({v})"), false), ("f := (x: any) -> bool { return match x { m => true, => false, } }; f(m)".to_string(), true),
+            (format!("f := (x: {ty}|mut {ty}) -> bool {{ return x == {v} }}; f(m)"), false), (format!("f := (x: {ty}|mut {ty}) -> bool {{ return x == {v} }}; f({v})"), true),
+        ] {
+            out.push((format!("{pre}{e}"), want));
+        }
+    }
+    out
+}
+
 impl Ctx<'_> {
     fn check_pair(&mut self, ca: &[El], cb: &[El], pa: &str, pb: &str, hidden: bool, wrap: &str) {
         let (Some(ea), Some(eb)) = (build(ca, pa, hidden), build(cb, pb, hidden)) else { return };
@@ -350,7 +373,9 @@ impl Ctx<'_> {
             ("mk := () -> (int) -> bool { lim := mut 1; return (x: int) -> bool { r := match x { *lim => true, => false, }; lim += 1; return r } }; g := mk(); a := g(3); b := g(3); c := g(3); d := g(3); a == false && b == false && c == true && d == false", true),
             ("lim := mut 1; f := (x: int) -> bool { return x == *lim }; a := f(5); lim = 5; b := f(5); a == false && b == true", true),
         ];
-        for (src, want) in cases {
+        let all: Vec<(String, bool)> = cases.iter().map(|(s, w)| (s.to_string(), *w)).chain(cell_vs_content_cases()).collect();
+        for (src, want) in &all {
+            let (src, want) = (src.as_str(), *want);
             for hidden in [false, true] {
                 let text = if hidden {
                     // hide the integer literals 1 / 2 behind identity calls where they are operands
